@@ -67,7 +67,18 @@ pub struct HistHolderScn {
 
 fn failing_issue_call(rng: &mut Rng, now: i64) -> IssueCall {
     let ok_claims = json!({"iss": "https://issuer-a.example", "exp": now + 7200, "a": 1, "b": {"c": [1, 2]}});
-    match rng.usize(4) {
+    match rng.usize(6) {
+        4 | 5 => {
+            // a well-formed claim set with the reserved name planted late in document order: the
+            // call fails after other claims of the same request have already been processed
+            let cfg = GenCfg { hazard_pm: 0, ..GenCfg::small(rng) };
+            let mut claims = gen::gen_claims(rng, &cfg, "https://issuer-a.example", now);
+            if let Some(o) = claims.as_object_mut() {
+                o.insert("secret_ssn".into(), json!("123-45-6789"));
+                o.insert("zz_last".into(), if rng.bool() { json!({"inner": 1, "_sd": ["x"]}) } else { json!([1, {"deep": {"_sd": 1}}]) });
+            }
+            IssueCall { claims, strat: if rng.bool() { Strat::All } else { Strat::Top }, holder_key: if rng.bool() { Some("ecC".into()) } else { None }, decoys: rng.bool(), fmt: rand_fmt(rng) }
+        }
         0 => IssueCall { claims: rng.pick(&[json!([1, 2]), json!("str"), json!(null), json!(5)]).clone(), strat: Strat::All, holder_key: None, decoys: rng.bool(), fmt: rand_fmt(rng) },
         1 => IssueCall { claims: ok_claims, strat: Strat::Custom(vec![rng.pick(&["a", "b.c", "", "$a", " $.a"]).to_string()]), holder_key: None, decoys: rng.bool(), fmt: rand_fmt(rng) },
         2 => IssueCall { claims: json!({"iss": "https://issuer-a.example", "exp": now + 7200, "x": {"_sd": ["abc"]}}), strat: Strat::Top, holder_key: Some("ecC".into()), decoys: rng.bool(), fmt: rand_fmt(rng) },
@@ -115,8 +126,13 @@ pub fn gen_c11(rng: &mut Rng, tier: Tier) -> Result<Value, serde_json::Error> {
         for _ in 0..n {
             let keep = 200 + rng.below(800);
             let mut selection = gen::gen_selection(rng, &cred.claims, keep);
-            let kb = match (&hk, rng.usize(3)) {
+            let kb = match (&hk, rng.usize(4)) {
                 (Some(k), 0) | (Some(k), 1) => Some((gen::gen_session_string(rng), gen::gen_session_string(rng), k.clone(), msg_gen::kb_alg_for(rng, k))),
+                // create_presentation signs with whatever key and algorithm the caller hands in:
+                // histories in which the effective algorithm changes from call to call (including a
+                // call that fails because the algorithm does not fit the key)
+                (Some(k), 2) => Some((gen::gen_session_string(rng), gen::gen_session_string(rng), k.clone(), rng.pick(&[None, Some("ES256".to_string()), Some("EdDSA".to_string())]).clone())),
+                (_, 3) => Some((gen::gen_session_string(rng), gen::gen_session_string(rng), "hsA".to_string(), Some(rng.pick(&["HS256", "HS384", "HS512"]).to_string()))),
                 _ => None,
             };
             let mut call = match kb {
